@@ -62,6 +62,13 @@ pub fn sha3_256(bytes: &[u8]) -> [u8; 32] {
     d
 }
 
+/// The model's `ChallengeBuilder::finish` after hashing (`rawScalar`: four little-endian limbs, reduced mod q, computed by the
+/// Lean driver) applied to an independently computed SHA3-256 digest must be the challenge the real code derived.
+pub fn model_finish_matches(ctx: &mut Ctx, bytes: &[u8], c: &Scalar) -> bool {
+    let d = sha3_256(bytes);
+    ctx.expect(&format!("raw-scalar {}", hex::encode(d)), &[Real::S(*c)])
+}
+
 pub fn sha3_challenge(bytes: &[u8]) -> Scalar {
     let mut h = Sha3::sha3_256();
     h.input(bytes);
@@ -303,6 +310,7 @@ pub fn establish_customer(ctx: &mut Ctx, w: &World, hidden: &Agreed) -> Option<E
     if sha3_challenge(&tbytes) != c {
         ctx.violation("recorded challenge is not from_raw(SHA3-256(recorded bytes))", json!({"class": "challenge-not-sha3"}));
     }
+    let _ = model_finish_matches(ctx, &tbytes, &c);
     let rb = wire::ser(&requested);
     if rb.len() != 209 {
         ctx.broken("Requested is not 209 bytes");
@@ -413,6 +421,7 @@ pub fn initialize_check(ctx: &mut Ctx, w: &World, a: &Agreed, d: &EstD, expect: 
     if sha3_challenge(&tbytes) != c {
         ctx.violation("recorded challenge is not from_raw(SHA3-256(recorded bytes))", json!({"class": "challenge-not-sha3"}));
     }
+    let _ = model_finish_matches(ctx, &tbytes, &c);
     let _ = check_est_transcript(ctx, w, a, d, &tbytes, "merchant");
     let op = format!("est-verify {} {} {} {}", pk_args(&w.kpd.pk), a.pub_args(), d.args(), hex_s(&c));
     let reals = match &out {
